@@ -313,6 +313,7 @@ func (node *Node) ProcessBlock(ctx context.Context, block wire.Block) error {
 							return errors.Wrap(err, "fetch tx state")
 						}
 
+						txState.State.Safe = false
 						txState.State.UnSafe = true
 						txState.State.Cancelled = true
 
